@@ -18,7 +18,7 @@ func c20Cfg(tag string, cmd string) (*config.ClientConfig, bool) {
 
 //verif:prop C20
 //verif:bounds destination "host.example"; a configuration given with -C and optionally a default configuration, each with one host block whose pattern is one of {"host.example", "*.example", "other", "h*"} and whose command identifies the file; real MatchHost / MergeWith / Glob
-//verif:cover both-files;one-file
+//verif:cover both-files;one-file;alias
 func VH_C20_host_blocks_of_every_loaded_file_are_applied() {
 	f := &ClientFlags{Address: &core.URL{Host: "host.example", User: "u", Port: "77"}}
 	cc, ccMatches := c20Cfg("dash-C-file", "from -C file")
@@ -29,6 +29,13 @@ func VH_C20_host_blocks_of_every_loaded_file_are_applied() {
 		verifCover("both-files")
 	} else {
 		verifCover("one-file")
+	}
+	if dc != nil && dcMatches && verifBool("default-block-sets-a-hostname-alias") {
+		// the default file resolves the requested host to another name: the
+		// -C file's patterns are still matched against what the user ASKED for
+		alias := "other"
+		dc.Hosts[0].Hostname = &alias
+		verifCover("alias")
 	}
 	hc, err := mergeClientFlagsAndConfig(f, cc, dc)
 	verifAssert(err == nil && hc != nil, "C20: flags and configuration merge")
@@ -43,4 +50,25 @@ func VH_C20_host_blocks_of_every_loaded_file_are_applied() {
 	default:
 		verifAssert(hc.Cmd == "", "C20: a host block that does not match the destination is not applied")
 	}
+}
+
+// The host a user types reaches the pattern matching byte for byte: patterns
+// are matched case-sensitively, so "GPU-01" must not be turned into "gpu-01" on
+// the way (it would select another host block).
+//
+//verif:prop C20
+//verif:bounds command-line address "hop://u@" + host + ":77" with host = "h" + one symbolic byte restricted to letters, digits and '-' (what a host name may contain); real core.ParseURL (net/url)
+//verif:cover parsed
+//verif:timeout 600
+func VH_C20_requested_host_reaches_the_matching_unchanged() {
+	b := verifU8("host-byte")
+	verifAssume(verifOr(verifOr(verifAnd(b >= 'a', b <= 'z'), verifAnd(b >= 'A', b <= 'Z')), verifOr(verifAnd(b >= '0', b <= '9'), b == '-')))
+	host := "h" + string([]byte{b})
+	u, err := core.ParseURL("hop://u@" + host + ":77")
+	verifAssert(err == nil && u != nil, "C20: a plain host name parses")
+	if err != nil || u == nil {
+		return
+	}
+	verifCover("parsed")
+	verifAssert(len(u.Host) == 2 && u.Host[0] == 'h' && u.Host[1] == b, "C20: the host handed to the host-block matching is the host the user typed, byte for byte (no case folding)")
 }
